@@ -8,8 +8,12 @@ implementation against it under every skip schedule): every node with the closed
 `routeT t x` lists the nodes the evaluation of `x` passes through, with the same path bookkeeping.
 Binary trees whose decisions are well-formed one-row predicates (`ElimOK`-like hypothesis `RouteOK`).
 Proved: an input satisfies the reported conditions of every node on its route; a point strictly inside the reported
-region of a child is routed to that child.  Open: the machine refinement (`PolyhedraGen` = `regionsT` under skips),
-disjointness and cover as theorems (decided exactly per generated tree by the judge).
+region of a child is routed to that child; the stream with skips (`regionsSkipT`, what the judge compares the
+implementation's stream with) reports the nodes of the C13 reference traversal once each, in pre-order, each with the
+path conditions `regionsT` assigns to it, and is `regionsT` itself without skips; distinct labels of a decision have
+disjoint open half-spaces.  Open: the machine refinement (`PolyhedraGen` machine = `regionsSkipT`; the judge compares
+the implementation with both), disjointness of whole terminal regions and cover as theorems (decided exactly per
+generated tree by the judge).
 -/
 set_option linter.unusedSectionVars false
 set_option linter.unusedVariables false
@@ -147,5 +151,103 @@ theorem C09_interior_routed (d : Aff α) (x : List α) (l : Nat) (hl : l = 0 ∨
   | [r], [] => simp [hm, hb] at hw2
   | [r], _ :: _ :: _ => simp [hm, hb] at hw2
   | _ :: _ :: _, _ => simp [hm] at hrows
+
+/-! ### the stream with skips -/
+
+mutual
+/-- nodes are reported once each, in pre-order, with the skipped sub-trees omitted: the items of the region stream
+    are the items of the reference traversal of C13 under the same skip schedule -/
+theorem regionsSkipT_items (sk : Nat → Nat) (t : PT α) (d r : Nat) (path : List (Aff α)) (k : Nat) :
+    (regionsSkipT sk t d r path k).1.map (·.1) = (refDfsT sk d t r k).1 ∧
+    (regionsSkipT sk t d r path k).2 = (refDfsT sk d t r k).2 := by
+  match t with
+  | .node i c ks =>
+    simp only [regionsSkipT, refDfsT]
+    split
+    · simp
+    · obtain ⟨h1, h2⟩ := regionsSkipK_items sk ks c.aff 0 (d+1) path (k+1)
+      simp [h1, h2]
+theorem regionsSkipK_items (sk : Nat → Nat) (ks : PKids α) (a : Aff α) (l d : Nat) (path : List (Aff α)) (k : Nat) :
+    (regionsSkipK sk ks a l d path k).1.map (·.1) = (refDfsK sk d ks k).1 ∧
+    (regionsSkipK sk ks a l d path k).2 = (refDfsK sk d ks k).2 := by
+  match ks with
+  | .nil => simp [regionsSkipK, refDfsK]
+  | .cons none rest =>
+    simp only [regionsSkipK, refDfsK]
+    exact regionsSkipK_items sk rest a (l+1) d path k
+  | .cons (some t) rest =>
+    simp only [regionsSkipK, refDfsK]
+    obtain ⟨h1, h2⟩ := regionsSkipT_items sk t d rest.count (path ++ [halfspace a l]) k
+    rw [h2]
+    obtain ⟨h3, h4⟩ := regionsSkipK_items sk rest a (l+1) d path (refDfsT sk d t rest.count k).2
+    simp [h1, h3, h4]
+end
+
+theorem C09_skip_stream_items (sk : Nat → Nat) (t : PT α) :
+    (regionsSkipT sk t 0 0 [] 0).1.map (·.1) = (refDfsT sk 0 t 0 0).1 :=
+  (regionsSkipT_items sk t 0 0 [] 0).1
+
+mutual
+/-- skipping never changes what is reported for a node: every reported (item, path conditions) pair is the pair the
+    skip-free reference reports -/
+theorem regionsSkipT_sub (sk : Nat → Nat) (t : PT α) (d r : Nat) (path : List (Aff α)) (k : Nat) :
+    ∀ e ∈ (regionsSkipT sk t d r path k).1, e ∈ regionsT t d r path := by
+  match t with
+  | .node i c ks =>
+    intro e he
+    simp only [regionsSkipT] at he
+    simp only [regionsT, List.mem_cons]
+    split at he
+    · simp only [List.mem_singleton] at he; exact Or.inl he
+    · simp only [List.mem_cons] at he
+      rcases he with h | h
+      · exact Or.inl h
+      · exact Or.inr (regionsSkipK_sub sk ks c.aff 0 (d+1) path (k+1) e h)
+theorem regionsSkipK_sub (sk : Nat → Nat) (ks : PKids α) (a : Aff α) (l d : Nat) (path : List (Aff α)) (k : Nat) :
+    ∀ e ∈ (regionsSkipK sk ks a l d path k).1, e ∈ regionsK ks a l d path := by
+  match ks with
+  | .nil => simp [regionsSkipK]
+  | .cons none rest => simp only [regionsSkipK, regionsK]; exact regionsSkipK_sub sk rest a (l+1) d path k
+  | .cons (some t) rest =>
+    intro e he
+    simp only [regionsSkipK, List.mem_append] at he
+    simp only [regionsK, List.mem_append]
+    rcases he with h | h
+    · exact Or.inl (regionsSkipT_sub sk t d rest.count _ k e h)
+    · exact Or.inr (regionsSkipK_sub sk rest a (l+1) d path _ e h)
+end
+
+theorem C09_skip_stream_regions (sk : Nat → Nat) (t : PT α) :
+    ∀ e ∈ (regionsSkipT sk t 0 0 [] 0).1, e ∈ regionsT t 0 0 [] :=
+  regionsSkipT_sub sk t 0 0 [] 0
+
+mutual
+theorem regionsSkipT_noskip (t : PT α) (d r : Nat) (path : List (Aff α)) (k : Nat) :
+    (regionsSkipT (fun _ => 0) t d r path k).1 = regionsT t d r path := by
+  match t with
+  | .node i c ks =>
+    simp only [regionsSkipT, regionsT, ne_eq, not_true_eq_false, if_false]
+    rw [regionsSkipK_noskip ks c.aff 0 (d+1) path (k+1)]
+theorem regionsSkipK_noskip (ks : PKids α) (a : Aff α) (l d : Nat) (path : List (Aff α)) (k : Nat) :
+    (regionsSkipK (fun _ => 0) ks a l d path k).1 = regionsK ks a l d path := by
+  match ks with
+  | .nil => simp [regionsSkipK, regionsK]
+  | .cons none rest => simp only [regionsSkipK, regionsK]; exact regionsSkipK_noskip rest a (l+1) d path k
+  | .cons (some t) rest =>
+    simp only [regionsSkipK, regionsK]
+    rw [regionsSkipT_noskip t d rest.count _ k, regionsSkipK_noskip rest a (l+1) d path _]
+end
+
+/-- without skips the stream is the reference `regionsT`: every node of the tree, once, in pre-order -/
+theorem C09_noskip_stream (t : PT α) : (regionsSkipT (fun _ => 0) t 0 0 [] 0).1 = regionsT t 0 0 [] :=
+  regionsSkipT_noskip t 0 0 [] 0
+
+/-- the two branches of a decision have disjoint open regions: no point is strictly inside both half-spaces -/
+theorem C09_sibling_interiors_disjoint (d : Aff α) (x : List α) (hwf : d.WF) (hrows : d.outdim = 1)
+    (h0 : ∀ rb ∈ (halfspace d 0).rows, dot rb.1 x < rb.2) (h1 : ∀ rb ∈ (halfspace d 1).rows, dot rb.1 x < rb.2) :
+    False := by
+  have e0 := C09_interior_routed d x 0 (Or.inl rfl) hwf hrows h0
+  have e1 := C09_interior_routed d x 1 (Or.inr rfl) hwf hrows h1
+  omega
 
 end AV
